@@ -649,6 +649,20 @@ Module GridKernels.
   Proof. exact thr_witness_values. Qed.
   Print Assumptions C04_grid_maximise_witness_values.
 
+  (* distribute_item_space_to_base_size (11.5.1, as a kernel): both absolute constants (0.01 and 0.000001) as lengths *)
+  Theorem C04_grid_distribute_item_space_threshold : forall k flex use_ff space ts aff aff' ct, 0 < k ->
+    affected_inv k aff aff' ->     (* the `is_affected` closure decides alike on related tracks: it reads kinds / sizing functions *)
+    distribute_item_space_to_base_size_t (T := XQ) threshold base_threshold = distribute_item_space_to_base_size /\
+    tracks_rel k (distribute_item_space_to_base_size_t (Fin (DISTRIBUTE_THRESHOLD_Q / k)) (Fin (BASE_SIZE_THRESHOLD_Q / k))
+                                                        flex use_ff space ts aff growth_limit ct)
+                 (distribute_item_space_to_base_size flex use_ff (x_scale k space) (map (track_scale k) ts) aff' growth_limit ct).
+  Proof.
+    intros k flex uff sp ts aff aff' ct Hk Haff. split; [reflexivity|].
+    change (distribute_item_space_to_base_size (T := XQ)) with (distribute_item_space_to_base_size_t (T := XQ) threshold base_threshold).
+    apply (distribute_item_space_to_base_size_scaled k); assumption.
+  Qed.
+  Print Assumptions C04_grid_distribute_item_space_threshold.
+
   (* find_size_of_fr (11.7.1, the fuelled restart loop; the hypothetical fr size starts at infinity, a fixed point) *)
   Theorem C04_grid_find_size_of_fr : forall k ts space, 0 < k ->
     sc k (find_size_of_fr ts space) (find_size_of_fr (map (track_scale k) ts) (x_scale k space)).
